@@ -22,6 +22,8 @@ type PyImport struct {
 	Source string         // from-import: source exactly as written (".", "..", ".pkg", "a.b")
 	Names  []PyImportName // from-import: imported names
 	Paren  bool           // from a import (b, c)
+	Multi  bool           // ... with one name per line inside the parentheses
+	Comma  bool           // ... with a trailing comma inside the parentheses
 	Star   bool           // from a import *
 }
 
@@ -212,6 +214,10 @@ func (g *pyGen) importStmt() *PyImport {
 			im.Names = append(im.Names, nmx)
 		}
 		im.Paren = r.Chance(1, 5)
+		if im.Paren {
+			im.Multi = r.Chance(1, 2)
+			im.Comma = r.Chance(1, 3)
+		}
 	}
 	return im
 }
@@ -587,7 +593,14 @@ func (im *PyImport) String() string {
 		}
 	}
 	if im.Paren {
-		return "from " + im.Source + " import (" + strings.Join(ps, ", ") + ")"
+		tail := ""
+		if im.Comma {
+			tail = ","
+		}
+		if im.Multi {
+			return "from " + im.Source + " import (\n    " + strings.Join(ps, ",\n    ") + tail + "\n)"
+		}
+		return "from " + im.Source + " import (" + strings.Join(ps, ", ") + tail + ")"
 	}
 	return "from " + im.Source + " import " + strings.Join(ps, ", ")
 }
@@ -779,7 +792,7 @@ func (m *PyModule) Shape() string {
 					al++
 				}
 			}
-			fmt.Fprintf(&sb, "i(%v m%d n%d a%d p%v s%v dots%d)", im.From, len(im.Mods), len(im.Names), al, im.Paren, im.Star, strings.Count(im.Source, "."))
+			fmt.Fprintf(&sb, "i(%v m%d n%d a%d p%v%v%v s%v dots%d)", im.From, len(im.Mods), len(im.Names), al, im.Paren, im.Multi, im.Comma, im.Star, strings.Count(im.Source, "."))
 		case it.Class != nil:
 			fmt.Fprintf(&sb, "c(d%d b%d o%v:", len(it.Class.Decos), len(it.Class.Bases), it.Class.OneLine)
 			for _, b := range it.Class.Body {
